@@ -176,3 +176,204 @@ func runG9(c *core.Ctx) {
 		c.Undecided("ast resumable readers", token.NoPos, "no resumable container reader found")
 	}
 }
+
+// N7: strconv's number grammar is a superset of JSON's. Wherever the alternative decoder converts text with
+// strconv.ParseFloat / ParseInt / ParseUint, the same text must first have passed a JSON-number test.
+func init() {
+	register(&core.Rule{ID: "N7", Min: 3, Arm64: true,
+		Doc: "optdec converts number text with strconv only after a JSON-number test: every call of strconv.ParseFloat / ParseInt / ParseUint in internal/decoder/optdec whose text argument is a variable v is preceded, in the same function and outside any branch the call is not in, by `if !G(v) { return ... }` where G (directly or through its callees in optdec) reaches utils.SkipNumber - the Go-level scanner of the JSON number grammar. strconv accepts \"NaN\", \"inf\", hex floats, a leading '+', \".5\", \"1_0\"; the JIT decoder re-parses quoted number text with the native JSON number parser and rejects them.",
+		Run: runN7})
+}
+
+func runN7(c *core.Ctx) {
+	p := c.Prog
+	pk := p.Pkg("internal/decoder/optdec")
+	if pk == nil {
+		c.Undecided("internal/decoder/optdec", token.NoPos, "package not loaded")
+		return
+	}
+	decls := core.FuncDecls(pk)
+	// functions of optdec that reach utils.SkipNumber (fixpoint over direct calls)
+	reaches := map[types.Object]bool{}
+	for changed := true; changed; {
+		changed = false
+		for _, fd := range decls {
+			o := p.ObjectOf(fd.Name)
+			if fd.Body == nil || o == nil || reaches[o] {
+				continue
+			}
+			ast.Inspect(fd.Body, func(nd ast.Node) bool {
+				call, ok := nd.(*ast.CallExpr)
+				if !ok {
+					return true
+				}
+				if p.IsCallTo(call, "internal/utils", "SkipNumber") {
+					reaches[o] = true
+				} else if co := p.Callee(call); co != nil && reaches[co] {
+					reaches[o] = true
+				}
+				return true
+			})
+			if reaches[o] {
+				changed = true
+			}
+		}
+	}
+	n := 0
+	for _, fd := range decls {
+		if fd.Body == nil || strings.HasSuffix(p.Fset.Position(fd.Pos()).Filename, "_test.go") {
+			continue
+		}
+		fn := core.FuncName(pk, fd)
+		// top-level statements of the body, in order: guards seen so far
+		guarded := map[types.Object]bool{}
+		for _, st := range fd.Body.List {
+			// a guard: if !G(v) { ... return }
+			if is, ok := st.(*ast.IfStmt); ok && is.Init == nil && is.Else == nil {
+				if ue, ok := ast.Unparen(is.Cond).(*ast.UnaryExpr); ok && ue.Op == token.NOT {
+					if call, ok := ast.Unparen(ue.X).(*ast.CallExpr); ok && len(call.Args) == 1 {
+						if co := p.Callee(call); co != nil && reaches[co] && len(is.Body.List) > 0 {
+							if _, isRet := is.Body.List[len(is.Body.List)-1].(*ast.ReturnStmt); isRet {
+								if id, ok := ast.Unparen(call.Args[0]).(*ast.Ident); ok {
+									guarded[p.ObjectOf(id)] = true
+								}
+							}
+						}
+					}
+				}
+			}
+			ast.Inspect(st, func(nd ast.Node) bool {
+				call, ok := nd.(*ast.CallExpr)
+				if !ok || len(call.Args) == 0 {
+					return true
+				}
+				which := ""
+				for _, nm := range []string{"ParseFloat", "ParseInt", "ParseUint"} {
+					if p.IsCallTo(call, "strconv", nm) {
+						which = nm
+					}
+				}
+				if which == "" {
+					return true
+				}
+				n++
+				c.Analysed(fn)
+				cn := fn + "/strconv." + which
+				id, ok := ast.Unparen(call.Args[0]).(*ast.Ident)
+				switch {
+				case !ok:
+					c.Bad(cn, call.Pos(), "strconv.%s converts `%s`, an expression no JSON-number test was applied to", which, exprStr(call.Args[0]))
+				case guarded[p.ObjectOf(id)]:
+					c.OK(cn, call.Pos(), "`%s` passed the JSON number scanner before it is converted", id.Name)
+				default:
+					c.Bad(cn, call.Pos(), "strconv.%s converts `%s` without a preceding JSON-number test: text from inside quotes (`,string` fields, map keys) such as \"NaN\", \"inf\", \"0x1p-2\", \"+1.5\", \".5\" is accepted by the alternative decoder and rejected by the JIT decoder", which, id.Name)
+				}
+				return true
+			})
+		}
+	}
+	if n == 0 {
+		c.Undecided("optdec strconv conversions", token.NoPos, "no strconv.Parse* call found in optdec")
+	}
+}
+
+// E10: the decoder's position is a value boundary only after a successful decode.
+func init() {
+	register(&core.Rule{ID: "E10", Min: 1, Arm64: true,
+		Doc: "StreamDecoder.Decode: every use of Decoder.Pos() after the inner Decoder.Decode call stands under a condition that the decode error is nil (`if err == nil { ... Pos() ... }`, or the else-arm of `err != nil`). When an unmarshaler refuses a nested member the decoder stops on the spot and Pos() lies inside the framed value; moving the stream cursor there makes the next Decode start in the middle of the refused value and loses the values behind it.",
+		Run: runE10})
+}
+
+func runE10(c *core.Ctx) {
+	p := c.Prog
+	pk := p.Pkg("internal/decoder/api")
+	fd := core.FuncDecl(pk, "StreamDecoder", "Decode")
+	cn := "internal/decoder/api.(StreamDecoder).Decode/pos-after-success"
+	if fd == nil || fd.Body == nil {
+		c.Undecided(cn, token.NoPos, "not found")
+		return
+	}
+	c.Analysed(core.FuncName(pk, fd))
+	// the variable bound to the inner decode's error
+	var errObj types.Object
+	var decPos token.Pos
+	ast.Inspect(fd.Body, func(n ast.Node) bool {
+		as, ok := n.(*ast.AssignStmt)
+		if !ok || len(as.Rhs) != 1 || len(as.Lhs) != 1 || errObj != nil {
+			return true
+		}
+		call, ok := ast.Unparen(as.Rhs[0]).(*ast.CallExpr)
+		if !ok {
+			return true
+		}
+		if se, ok := call.Fun.(*ast.SelectorExpr); ok && se.Sel.Name == "Decode" && strings.HasSuffix(exprStr(se.X), ".Decoder") {
+			if id, ok := as.Lhs[0].(*ast.Ident); ok {
+				errObj = p.ObjectOf(id)
+				decPos = call.Pos()
+			}
+		}
+		return true
+	})
+	if errObj == nil {
+		c.Undecided(cn, fd.Pos(), "the inner Decoder.Decode call bound to an error variable was not found")
+		return
+	}
+	isErrCmp := func(e ast.Expr, op token.Token) bool {
+		be, ok := ast.Unparen(e).(*ast.BinaryExpr)
+		if !ok || be.Op != op {
+			return false
+		}
+		for _, pr := range [][2]ast.Expr{{be.X, be.Y}, {be.Y, be.X}} {
+			id, ok := ast.Unparen(pr[0]).(*ast.Ident)
+			nl, ok2 := ast.Unparen(pr[1]).(*ast.Ident)
+			if ok && ok2 && p.ObjectOf(id) == errObj && nl.Name == "nil" {
+				return true
+			}
+		}
+		return false
+	}
+	n, bad := 0, token.NoPos
+	var walk func(nd ast.Node, underSuccess bool)
+	walk = func(nd ast.Node, underSuccess bool) {
+		ast.Inspect(nd, func(m ast.Node) bool {
+			switch x := m.(type) {
+			case *ast.IfStmt:
+				if x.Init != nil {
+					walk(x.Init, underSuccess)
+				}
+				succThen, succElse := underSuccess, underSuccess
+				for _, cj := range conjuncts(x.Cond) {
+					if isErrCmp(cj, token.EQL) {
+						succThen = true
+					}
+				}
+				if isErrCmp(x.Cond, token.NEQ) {
+					succElse = true
+				}
+				walk(x.Cond, underSuccess)
+				walk(x.Body, succThen)
+				if x.Else != nil {
+					walk(x.Else, succElse)
+				}
+				return false
+			case *ast.CallExpr:
+				if se, ok := x.Fun.(*ast.SelectorExpr); ok && se.Sel.Name == "Pos" && strings.HasSuffix(exprStr(se.X), ".Decoder") && x.Pos() > decPos {
+					n++
+					if !underSuccess && bad == token.NoPos {
+						bad = x.Pos()
+					}
+				}
+			}
+			return true
+		})
+	}
+	walk(fd.Body, false)
+	switch {
+	case n == 0:
+		c.Undecided(cn, fd.Pos(), "no use of Decoder.Pos() after the inner decode (E5 decides whether it is consulted at all)")
+	case bad != token.NoPos:
+		c.Bad(cn, bad, "Decoder.Pos() moves the stream cursor also after a failed decode: when a nested json.Unmarshaler / TextUnmarshaler refuses a member the position lies inside the framed value, the next Decode starts in the middle of it and the values behind are lost")
+	default:
+		c.OK(cn, fd.Pos(), "%d use(s) of Decoder.Pos(), all under `err == nil`", n)
+	}
+}
